@@ -395,6 +395,12 @@ func writeEvidence(ck Check, tier string, seed int64, t *Result, parts map[strin
 		outs = append(outs[:40], fmt.Sprintf("... (%d more)", len(outs)-40))
 	}
 	nontrivial := t.Nontrivial
+	if t.Samples == nil {
+		t.Samples = []any{}
+	}
+	if t.Caps == nil {
+		t.Caps = []string{}
+	}
 	cov := map[string]any{
 		"evaluations":                   t.Evaluations,
 		"distinct_nontrivial":           nontrivial,
